@@ -2,7 +2,11 @@
 
 package main
 
-import "fmt"
+import (
+	"fmt"
+	"strconv"
+	"strings"
+)
 
 // findroute: n (proto dest nexthop)*n host reps
 // observation: k, then k distinct answers (some proto host port | none), in order of first
@@ -55,17 +59,42 @@ func init() {
 	}
 	// findroute-seq: n (proto dest nexthop)*n m host*m
 	// observation: m, then one answer per host, all looked up one after the other on ONE table object
+	// the table is built the way the binary builds it: YAML text -> loadConfigFromReader -> createPreConfigRoute;
+	// neighbouring entries with the same protocol and next hop are written as ONE route item with several dests
 	components["findroute-seq"] = func(k *toks, o *out) {
 		n := k.int()
-		pcr := NewPreConfigRoute()
+		type ent struct{ p, d, h string }
+		var ents []ent
 		for i := 0; i < n && !k.bad; i++ {
-			p, d, h := k.str(), k.str(), k.str()
-			pcr.AddRouteItem(p, d, h)
+			ents = append(ents, ent{k.str(), k.str(), k.str()})
 		}
 		m := k.int()
 		if k.bad {
 			return
 		}
+		var y strings.Builder
+		y.WriteString("proxies:\n- name: \"findroute\"\n")
+		if len(ents) > 0 {
+			y.WriteString("  route:\n")
+		}
+		for i := 0; i < len(ents); {
+			j := i + 1
+			for j < len(ents) && ents[j].p == ents[i].p && ents[j].h == ents[i].h {
+				j++
+			}
+			y.WriteString("  - dests:\n")
+			for _, e := range ents[i:j] {
+				y.WriteString("    - " + strconv.Quote(e.d) + "\n")
+			}
+			y.WriteString("    protocol: " + strconv.Quote(ents[i].p) + "\n    nexthop: " + strconv.Quote(ents[i].h) + "\n")
+			i = j
+		}
+		conf, err := loadConfigFromReader(strings.NewReader(y.String()))
+		if err != nil || len(conf.Proxies) != 1 {
+			o.s("config-fail")
+			return
+		}
+		pcr := createPreConfigRoute(conf.Proxies[0])
 		o.i(m)
 		for i := 0; i < m && !k.bad; i++ {
 			proto, h, port, err := pcr.FindRoute(k.str())
